@@ -4,6 +4,7 @@ import Driver.Codec
 import Driver.Stream
 import Driver.Retry
 import Driver.Mux
+import Driver.Dict
 /-!
   Driver — reads correspondence lines `domain op args… => impl-output` on stdin and prints,
   per line, tab-separated: index, agree|DISAGREE|BADLINE, Spec verdicts (comma separated or
@@ -14,6 +15,7 @@ open DV DV.Drv
 structure St where
   dicts : Std.HashMap String DictRt
   intern : Intern
+  defaultLog : DV.Spec.Log
 
 def emit (idx : Nat) (impl : String) (j : Judged) : String :=
   let agree := if j.model = impl then "agree" else "DISAGREE"
@@ -55,6 +57,15 @@ def handle (st : St) (idx : Nat) (line : String) : St × String :=
     | "mux" :: "seq" :: rest =>
       let (i', j) := judgeMuxSeq dict st.intern ((kv rest "ops").getD "-") implToks
       ({ st with intern := i' }, emit idx impl j)
+    | "dict" :: "query" :: rest =>
+      let (i', j) := judgeDict st.intern ((kv rest "set").getD "default") (kvNat rest "k") ((kv rest "qs").getD "-") implToks
+        defaultDict.parser st.defaultLog
+      ({ st with intern := i' }, emit idx impl j)
+    | "dict" :: "types" :: _ =>
+      let names := Gen.available.map (·.1)
+      let model := ",".intercalate (names.map (fun n => n ++ "=ok"))
+      let bad := ((implToks.headD "").splitOn ",").filter (fun t => ¬ t.endsWith "=ok")
+      (st, emit idx impl { model := model, fails := bad.map (fun t => s!"C17:type-not-encodable-and-decodable:{t}"), tags := ["types"] })
     | "retry" :: "write" :: rest =>
       (match (kv rest "b").bind fromHex with
        | some b => (st, emit idx impl (judgeRetry ((kvNat rest "r").getD 0) (parseOutcomes ((kv rest "outs").getD "-")) b implToks))
@@ -84,6 +95,7 @@ partial def loop (h : IO.FS.Stream) (out : IO.FS.Stream) (st : St) (idx : Nat) :
 def main : IO Unit := do
   let stdin ← IO.getStdin
   let stdout ← IO.getStdout
-  let st : St := { dicts := (({} : Std.HashMap String DictRt).insert "default" defaultDict), intern := Intern.init }
+  let st : St := { dicts := (({} : Std.HashMap String DictRt).insert "default" defaultDict), intern := Intern.init,
+                   defaultLog := DV.Spec.logAll Gen.availableIds Gen.dictFiles }
   loop stdin stdout st 0
   stdout.flush
